@@ -27,6 +27,9 @@
 #include <string>
 #include <string_view>
 #include <utility>
+#ifdef BLOCH_VERIF
+#include <functional>
+#endif
 
 #ifndef CPPHTTPLIB_OPENSSL_SUPPORT
 #define CPPHTTPLIB_OPENSSL_SUPPORT
@@ -41,7 +44,32 @@ namespace bloch::update {
         // (Strategy) so we can unit-test update logic without hitting disk/network
         // and swap out curl/httplib or platform-specific cache paths cleanly.
 
+#ifdef BLOCH_VERIF
+    }  // namespace
+    // Override slots for runtime monitors (virtual clock, scripted network). Unset slots fall
+    // through to the real implementation.
+    namespace verif {
+        inline std::function<std::chrono::system_clock::time_point()> now;
+        inline std::function<std::optional<std::string>(const std::string&, std::string&)>
+            fetchLatestReleaseTag;
+        inline std::function<bool(const std::string&, const std::string&,
+                                  const std::filesystem::path&, std::string&)>
+            downloadFile;
+        inline std::function<bool(const std::string&, const std::string&, std::string&,
+                                  std::string&)>
+            downloadText;
+    }  // namespace verif
+    namespace {
+        struct Clock {
+            using time_point = std::chrono::system_clock::time_point;
+            using duration = std::chrono::system_clock::duration;
+            static time_point now() {
+                return verif::now ? verif::now() : std::chrono::system_clock::now();
+            }
+        };
+#else
         using Clock = std::chrono::system_clock;
+#endif
         constexpr auto kUpdateWindow = std::chrono::hours(72);
         constexpr std::string_view kChangelogUrl =
             "https://github.com/bloch-labs/bloch/blob/master/CHANGELOG.md";
@@ -250,6 +278,10 @@ namespace bloch::update {
 
         std::optional<std::string> fetchLatestReleaseTag(const std::string& agent,
                                                          std::string& error) {
+#ifdef BLOCH_VERIF
+            if (verif::fetchLatestReleaseTag)
+                return verif::fetchLatestReleaseTag(agent, error);
+#endif
             httplib::SSLClient client("api.github.com");
             configureClient(client);
             httplib::Headers headers{
@@ -421,6 +453,10 @@ namespace bloch::update {
 
         bool downloadText(const std::string& host, const std::string& path,
                           const std::string& agent, std::string& out, std::string& error) {
+#ifdef BLOCH_VERIF
+            if (verif::downloadText)
+                return verif::downloadText(host, path, out, error);
+#endif
             httplib::SSLClient client(host);
             configureClient(client);
             httplib::Headers headers{{"User-Agent", agent}};
@@ -440,6 +476,10 @@ namespace bloch::update {
         bool downloadFile(const std::string& host, const std::string& path,
                           const std::string& agent, const std::filesystem::path& dest,
                           std::string& error) {
+#ifdef BLOCH_VERIF
+            if (verif::downloadFile)
+                return verif::downloadFile(host, path, dest, error);
+#endif
             httplib::SSLClient client(host);
             configureClient(client);
             httplib::Headers headers{{"User-Agent", agent}};
